@@ -56,7 +56,13 @@ def pointee_const(q):
     if not q.endswith("*"):
         return False
     inner = q[:-1].strip()
-    return inner.startswith("const ") or inner.endswith(" const") or inner.endswith("*const")
+    # the pointee is itself a pointer: it is const only when that pointer is (`T *const *`); `const T **` points
+    # to a writable `const T *`
+    if inner.endswith("*const") or inner.endswith("* const"):
+        return True
+    if inner.endswith("*") or "*" in inner:
+        return False
+    return inner.startswith("const ") or inner.endswith(" const")
 
 
 def scan_file(path, inc):
@@ -71,7 +77,8 @@ def scan_file(path, inc):
             sc = n.get("storageClass")
             is_static_storage = (not in_func and sc != "extern") or (in_func and sc == "static")
             # only objects defined in this translation unit's own file or its headers' statics
-            if is_static_storage and ("init" in n or not in_func) and sc != "extern":
+            # (function-local statics count with or without an initialiser: `static T scratch[16];`)
+            if is_static_storage and sc != "extern":
                 statics[n["id"]] = {"name": n.get("name", "?"), "type": qual(n), "local": in_func,
                                     "const": is_const_object(qual(n)), "accesses": {}}
         for c in n.get("inner", []):
